@@ -338,5 +338,17 @@ def iter_arrays_rules(ctx, RA):
     ctx.decide(ok, 'R-TABLE', 'D1', f, None, 'endindex-default', 'endindex defaults to the number of subarrays', detail='default changed')
     ys = [n for n in own_nodes(f.node) if isinstance(n, ast.Yield)]
     i = norm(loops[0].target) if loops else 'i'
-    ok = bool(ys) and all(f'self[{i}]' in norm(y.value) for y in ys)
+    def _is_item_i(y):
+        if f'self[{i}]' in norm(y.value):
+            return True
+        # the same read spelled out: <values>[slice(*<indices>[i])]
+        for s_ in ast.walk(inline(f, y.value)):
+            if isinstance(s_, ast.Subscript) and subarray_role(ctx, s_.value, f) == 'VALUESDIR' and \
+                    isinstance(s_.slice, ast.Call) and dotted(s_.slice.func) == 'slice' and len(s_.slice.args) == 1 and \
+                    isinstance(s_.slice.args[0], ast.Starred) and isinstance(s_.slice.args[0].value, ast.Subscript) and \
+                    subarray_role(ctx, s_.slice.args[0].value.value, f) == 'INDICESDIR' and \
+                    norm(s_.slice.args[0].value.slice) == i:
+                return True
+        return False
+    ok = bool(ys) and all(_is_item_i(y) for y in ys)
     ctx.decide(ok, 'R-FLOW', 'D1', f, ys[0] if ys else None, 'yields-subarray-i', 'iter_arrays yields self[i] for each i', detail='yield changed')
